@@ -87,15 +87,17 @@ class FileBasedTapeCassette(TapeCassette):
         """
         ids = []
         for file_name in os.listdir(self.directory):
-            if not file_name.startswith(category):
+            if not file_name.endswith('.json'):
                 continue
 
-            recording_id = file_name.split('.')[0]
-            recording = self.get_recording(recording_id)
+            # The file name only holds a flattened form of the id, the real id (and category) is in the recording itself
+            recording = self.get_recording(file_name[:-len('.json')])
+            if self.extract_recording_category(recording.id) != category:
+                continue
 
             if metadata:
                 # Filter based on metadata if provided
-                if not all(metadata[key] == recording.get_metadata()[key] for key in metadata.keys()):
+                if not TapeCassette.match_against_recorded_metadata(metadata, recording.get_metadata()):
                     continue
 
             ids.append(recording.id)
